@@ -62,7 +62,7 @@ def value_oracle(box, expected, N_expected, M_expected, eps, what):
             return "dense shape %s vs %s" % (list(got.shape), list(exp.shape))
         err = float(tn.linalg.norm((got - exp).reshape(-1)))
         nrm = float(tn.linalg.norm(exp.reshape(-1)))
-        if err > CONST * eps * nrm + 1e3 * 2.3e-16 * nrm + (1e-12 if nrm == 0 else 0.0):
+        if not (err <= CONST * eps * nrm + 1e3 * 2.3e-16 * nrm + (1e-12 if nrm == 0 else 0.0)):      # NaN-safe
             return "%s: error %.3g exceeds %g*eps*norm = %.3g (eps=%g)" % (what, err, CONST, CONST * eps * nrm, eps)
         return None
     return oracle
